@@ -426,4 +426,85 @@ theorem repDec_render (d : Dec) (h : d.scale ≤ 34) : RepDec d.render d.val34 :
   unfold Dec.val34
   rw [p3, Int.mul_assoc, pow10_split p2 h]
 
+/-! ### bigdecimal values of any scale: equality as numbers -/
+
+/-- `a` and `b` stand for the same number (cross-multiplied: no division) -/
+def Dec.Eqv (a b : Dec) : Prop := a.coef * (10 : Int) ^ b.scale = b.coef * (10 : Int) ^ a.scale
+
+theorem Dec.Eqv.refl (a : Dec) : a.Eqv a := rfl
+
+theorem Dec.Eqv.symm {a b : Dec} (h : a.Eqv b) : b.Eqv a := Eq.symm h
+
+theorem Dec.Eqv.trans {a b c : Dec} (h1 : a.Eqv b) (h2 : b.Eqv c) : a.Eqv c := by
+  unfold Dec.Eqv at *
+  have hne : (10 : Int) ^ b.scale ≠ 0 := Int.ne_of_gt (Int.pow_pos (by decide))
+  apply Int.eq_of_mul_eq_mul_right hne
+  calc a.coef * 10 ^ c.scale * 10 ^ b.scale
+      = a.coef * 10 ^ b.scale * 10 ^ c.scale := Int.mul_right_comm _ _ _
+    _ = b.coef * 10 ^ a.scale * 10 ^ c.scale := by rw [h1]
+    _ = b.coef * 10 ^ c.scale * 10 ^ a.scale := Int.mul_right_comm _ _ _
+    _ = c.coef * 10 ^ b.scale * 10 ^ a.scale := by rw [h2]
+    _ = c.coef * 10 ^ a.scale * 10 ^ b.scale := Int.mul_right_comm _ _ _
+
+theorem Dec.add_comm (a b : Dec) : a.add b = b.add a := by
+  unfold Dec.add Dec.rescaleUp
+  simp only [Nat.max_comm a.scale b.scale, Int.add_comm]
+
+theorem Dec.add_congr_left {a a' : Dec} (b : Dec) (h : a.Eqv a') : (a.add b).Eqv (a'.add b) := by
+  unfold Dec.Eqv at *
+  unfold Dec.add Dec.rescaleUp
+  simp only
+  generalize hS : max a.scale b.scale = S
+  generalize hS' : max a'.scale b.scale = S'
+  have l1 : a.scale ≤ S := by rw [← hS]; exact Nat.le_max_left _ _
+  have l2 : b.scale ≤ S := by rw [← hS]; exact Nat.le_max_right _ _
+  have l3 : a'.scale ≤ S' := by rw [← hS']; exact Nat.le_max_left _ _
+  have l4 : b.scale ≤ S' := by rw [← hS']; exact Nat.le_max_right _ _
+  have e1 : a.coef * 10 ^ (S - a.scale) * 10 ^ S' =
+      a.coef * 10 ^ a'.scale * 10 ^ (S - a.scale + (S' - a'.scale)) := by
+    rw [Int.mul_assoc, Int.mul_assoc, ← Int.pow_add, ← Int.pow_add]; congr 2; omega
+  have e2 : a'.coef * 10 ^ (S' - a'.scale) * 10 ^ S =
+      a'.coef * 10 ^ a.scale * 10 ^ (S - a.scale + (S' - a'.scale)) := by
+    rw [Int.mul_assoc, Int.mul_assoc, ← Int.pow_add, ← Int.pow_add]; congr 2; omega
+  have e3 : b.coef * 10 ^ (S - b.scale) * 10 ^ S' = b.coef * 10 ^ (S' - b.scale) * 10 ^ S := by
+    rw [Int.mul_assoc, Int.mul_assoc, ← Int.pow_add, ← Int.pow_add]; congr 2; omega
+  rw [Int.add_mul, Int.add_mul, e1, e2, e3, h]
+
+theorem Dec.add_congr {a a' b b' : Dec} (ha : a.Eqv a') (hb : b.Eqv b') : (a.add b).Eqv (a'.add b') := by
+  have h1 := Dec.add_congr_left b ha
+  have h2 := Dec.add_congr_left a' hb
+  rw [Dec.add_comm b a', Dec.add_comm b' a'] at h2
+  exact h1.trans h2
+
+/-- bigdecimal addition is associative (on the nose: the scale of a sum is the larger scale) -/
+theorem Dec.add_assoc (a b c : Dec) : (a.add b).add c = a.add (b.add c) := by
+  unfold Dec.add Dec.rescaleUp
+  simp only
+  have hs : max (max a.scale b.scale) c.scale = max a.scale (max b.scale c.scale) := by
+    simp only [Nat.max_def]; repeat' split
+    all_goals omega
+  rw [hs]
+  congr 1
+  generalize hS : max a.scale (max b.scale c.scale) = S
+  have h1 : max a.scale b.scale ≤ S := by rw [← hS]; simp only [Nat.max_def]; repeat' split
+                                          all_goals omega
+  have h2 : max b.scale c.scale ≤ S := by rw [← hS]; simp only [Nat.max_def]; repeat' split
+                                          all_goals omega
+  have ha : a.scale ≤ max a.scale b.scale := Nat.le_max_left _ _
+  have hb : b.scale ≤ max a.scale b.scale := Nat.le_max_right _ _
+  have hb' : b.scale ≤ max b.scale c.scale := Nat.le_max_left _ _
+  have hc' : c.scale ≤ max b.scale c.scale := Nat.le_max_right _ _
+  simp only [Int.add_mul, Int.mul_assoc]
+  rw [pow10_split ha h1, pow10_split hb h1, pow10_split hb' h2, pow10_split hc' h2, Int.add_assoc]
+
+/-- a text that reads as a decimal standing for the same number as `d` -/
+def RepDecQ (t : Bytes) (d : Dec) : Prop := ∃ d0, Dec.parse t = some d0 ∧ d0.Eqv d
+
+theorem repDecQ_render (d : Dec) : RepDecQ d.render d := by
+  obtain ⟨d', p1, p2, p3⟩ := Dec.parse_render d
+  refine ⟨d', p1, ?_⟩
+  unfold Dec.Eqv
+  rw [p3, Int.mul_assoc, ← Int.pow_add]
+  congr 2; omega
+
 end SV
